@@ -584,6 +584,21 @@ impl<'m> MCTPSMBusContext<'m> {
                                 .unwrap();
                         }
                         CommandCode::GetVendorDefinedMessageSupport => {
+                            if payload[0] as usize >= self.vendor_ids.len() {
+                                // There is no such Vendor ID set
+                                len = self
+                                    .get_response()
+                                    .get_vendor_defined_message_support(
+                                        CompletionCode::ErrorInvalidData,
+                                        base_header.source_endpoint_id(),
+                                        0xFF,
+                                        &[],
+                                        response_buf,
+                                    )
+                                    .unwrap();
+                                return Ok(((msg_type, payload), Some(len)));
+                            }
+
                             if (payload[0] + 1) == self.vendor_ids.len() as u8 {
                                 // Set the Vendor ID Set Selector as the end
                                 self.vendor_id_selector.set(0xFF);
